@@ -441,7 +441,7 @@ def run(prop, spec, tier, seed):
     try:
         mir, dump_s = dump_mir()
         log("[%s] MIR of /repo dumped in %.1fs (%d lines)" % (prop, dump_s, mir.count("\n")))
-        runner = {"C19": run_c19_full, "C07": run_c07_full}[prop]
+        runner = {"C19": run_c19_full, "C07": run_c07_full, "C14": run_c14_full}[prop]
         exit_code, ev_extra = runner(prop, mir, log, tier)
     except Unsupported as e:
         log("[%s] INCONCLUSIVE: %s" % (prop, e))
@@ -847,11 +847,362 @@ def replay_c07(nm, model, log):
     return True if (dev_panics or rel_bad) else "native runs satisfy the property: %s" % res
 
 
+# ------------------------------------------------------------------ C14 (jet tables)
+NBITS = 24
+
+
+def c14_models(bits, L):
+    models = dict(M.CORE_MODELS)
+
+    def next_bit(mach, name, args):
+        pos = mach.store.get("pos", 0)
+        if pos >= NBITS:
+            # the harness stream has NBITS bits at most
+            return [(M.T(), "ret", Adt("Option", [], "None"), {})]
+        b = z3.Extract(NBITS - 1 - pos, NBITS - 1 - pos, bits) == 1
+        have = z3.UGT(L, pos)
+        return [(z3.Not(have), "ret", Adt("Option", [], "None"), {}),
+                (z3.And(have, z3.Not(b)), "ret", Adt("Option", [z3.BoolVal(False)], "Some"), {"pos": pos + 1}),
+                (z3.And(have, b), "ret", Adt("Option", [z3.BoolVal(True)], "Some"), {"pos": pos + 1})]
+
+    models[r"^<BitIter<I> as Iterator>::next$"] = next_bit
+    models[r"^<bit_encoding::decode::Error as Into<bit_encoding::decode::Error>>::into$"] = \
+        lambda mach, name, args: [(M.T(), "ret", args[0])]
+    models[r"^BitWriter::<&mut dyn std::io::Write>::write_bits_be$"] = \
+        lambda mach, name, args: [(M.T(), "ret", Opaque("written", {"n": args[1], "len": args[2]}))]
+    models[r"^std::fmt::Formatter::<'_>::write_str$"] = \
+        lambda mach, name, args: [(M.T(), "ret", Opaque("wrote", {"s": args[1]}))]
+    return models
+
+
+class EnumVal:
+    """a value of a field-less enum with symbolic discriminant"""
+
+    def __init__(self, d):
+        self.d = d
+
+
+def table_of(mach, f, d, nvar, getter):
+    """execute a `match self {..}` function for a symbolic discriminant; returns {k: python value}"""
+    outs = mach.exec_fn(f, [Ref(EnumVal(d))] + [Ref(Opaque("arg%d" % i)) for i in range(1, len(f.params))])
+    tab = {}
+    for (c, k, v) in outs:
+        if k == "panic":
+            continue
+        # path condition is d == k
+        s = z3.Solver()
+        s.add(c)
+        if s.check() != z3.sat:
+            continue
+        kk = s.model().eval(d, model_completion=True).as_long()
+        s.add(d != kk)
+        if s.check() != z3.unsat:
+            raise Unsupported("path of %s is not a single discriminant" % f.name)
+        tab[kk] = getter(v)
+    return tab
+
+
+def run_c14(mir_text, log, tier):
+    funcs = M.parse_mir(mir_text)
+    bits = z3.BitVec("bits", NBITS)
+    L = z3.BitVec("len", 8)
+    mach = M.Machine(funcs, c14_models(bits, L), max_paths=200000)
+    # discriminant switch on a symbolic enum value
+    orig_rvalue = mach.rvalue
+
+    def rvalue(env, f, dst, rv):
+        m = re.match(r"^discriminant\((.+)\)$", rv.strip())
+        if m:
+            v = mach.read_place(env, m.group(1))
+            if isinstance(v, EnumVal):
+                return v.d
+        return orig_rvalue(env, f, dst, rv)
+    mach.rvalue = rvalue
+    sol = Solver2(log, timeout_s=(900 if tier == "quick" else 2400))
+    fams = {}
+    d = z3.BitVec("d", 64)
+    for fam, mod in (("Core", "core"), ("Elements", "elements"), ("Bitcoin", "bitcoin")):
+        pre = "init::%s::" % mod
+
+        def fn(suffix, ret=None, params=None):
+            c = [g for g in funcs if g.name.startswith(pre) and g.name.endswith("::" + suffix)
+                 and (ret is None or g.ret.startswith(ret)) and (params is None or [t for _, t in g.params] == params)]
+            if len(c) != 1:
+                raise Unsupported("%s::%s: %d MIR bodies" % (fam, suffix, len(c)))
+            return c[0]
+        fmts = [g for g in funcs if g.name.startswith(pre) and g.name.endswith("::fmt") and g.params[0][1].startswith("&") and g.params[0][1].lstrip("&").split("::")[-1] == fam]
+        if len(fmts) != 2:
+            raise Unsupported("%s: expected Debug and Display fmt, found %d" % (fam, len(fmts)))
+
+        def strs(g):
+            return table_of(mach, g, d, None, lambda v: v.data["s"].data["s"] if isinstance(v, Opaque) and v.tag == "wrote" else None)
+        t1, t2 = strs(fmts[0]), strs(fmts[1])
+        # Debug prints the variant identifier (CamelCase), Display the jet name (snake_case)
+        dbg, disp = (t1, t2) if all(re.match(r'^"[A-Z]', x or "") for x in t1.values()) else (t2, t1)
+        if not dbg or any(v is None for v in dbg.values()) or any(v is None for v in disp.values()):
+            raise Unsupported("%s: fmt tables incomplete" % fam)
+        variant = {k: fam + "::" + v.strip('"') for k, v in dbg.items()}
+        disc = {v: k for k, v in variant.items()}
+        enc = table_of(mach, fn("encode"), d, None, lambda v: (z3.simplify(v.data["n"]).as_long(), z3.simplify(v.data["len"]).as_long()))
+        src = table_of(mach, fn("source_ty"), d, None, lambda v: v)
+        tgt = table_of(mach, fn("target_ty"), d, None, lambda v: v)
+
+        def tyname(v):
+            x = v.fields[0]
+            while isinstance(x, Ref):
+                x = x.val
+            return x.data["s"] if isinstance(x, Opaque) else repr(x)
+        fams[fam] = {"variant": variant, "disc": disc, "enc": enc, "display": {k: v.strip('"') for k, v in disp.items()},
+                     "src": {k: tyname(v) for k, v in src.items()}, "tgt": {k: tyname(v) for k, v in tgt.items()},
+                     "decode": fn("decode"), "from_str": fn("from_str")}
+        n = len(variant)
+        if not (len(enc) == n and len(src) == n and len(tgt) == n and len(disp) == n):
+            raise Unsupported("%s: tables have different sizes" % fam)
+        log("  %s: %d variants, code lengths %d..%d bits" % (fam, n, min(l for _, l in enc.values()), max(l for _, l in enc.values())))
+
+    def ite_table(tab, dd, width):
+        r = z3.BitVecVal(0, width)
+        for k, v in tab.items():
+            r = z3.If(dd == k, z3.BitVecVal(v, width), r)
+        return r
+
+    def code_bits(n, ln):
+        """the NBITS-bit string whose first `ln` bits are the code (n, ln) (python ints)"""
+        return n << (NBITS - ln)
+
+    strid = {}
+
+    def sid(x):
+        return strid.setdefault(x, len(strid) + 1)
+
+    for fam, F in fams.items():
+        nvar = len(F["variant"])
+        mach.store = {}
+        outs = mach.exec_fn(F["decode"], [Ref(Opaque("stream"))])
+        stores = mach.out_stores
+        log("  %s::decode: %d paths" % (fam, len(outs)))
+        pan = [c for (c, k, v) in outs if k == "panic"]
+        dom = [z3.ULE(L, NBITS)]
+        # K14.0 totality: some outcome applies to every (bits, len); none is a panic/unreachable
+        sol.add("K14.0 %s::decode is total on every string of <= %d bits (no panic / unreachable)" % (fam, NBITS),
+                dom + ([z3.Or(pan)] if pan else [z3.BoolVal(False)]), vars_for_model=[bits, L])
+        sol.add("K14.0b %s::decode: every string takes some path" % fam,
+                dom + [z3.Not(z3.Or([c for (c, k, v) in outs]))], vars_for_model=[bits, L])
+        # K14.1 decode -> encode
+        bad1, bad_err = [], []
+        for (c, k, v), st in zip(outs, stores):
+            if k != "ret":
+                continue
+            used = st.get("pos", 0)
+            if v.variant == "Ok":
+                vn = "::".join(v.fields[0].name.split("::")[-2:])
+                if vn not in F["disc"]:
+                    raise Unsupported("decode returns unknown variant %s" % vn)
+                n_, ln = F["enc"][F["disc"][vn]]
+                mask = ((1 << ln) - 1) << (NBITS - ln)
+                same = z3.And(ln == used, (bits & mask) == code_bits(n_, ln)) if ln <= NBITS else z3.BoolVal(False)
+                bad1.append(z3.And(c, z3.Not(same)))
+            else:
+                en = v.fields[0].name
+                if en.endswith("EndOfStream"):
+                    # only when the stream really ended at the cursor
+                    bad_err.append(z3.And(c, z3.UGT(L, used)))
+                elif not en.endswith("InvalidJet"):
+                    raise Unsupported("decode returns error %s" % en)
+        sol.add("K14.1 %s: a decoded jet re-encodes to exactly the consumed bits (codes injective and prefix-free)" % fam,
+                dom + [z3.Or(bad1)], vars_for_model=[bits, L])
+        sol.add("K14.1b %s: EndOfStream only when the bits ran out" % fam, dom + [z3.Or(bad_err)] if bad_err else [z3.BoolVal(False)],
+                vars_for_model=[bits, L])
+        # K14.2 encode -> decode: symbolic discriminant, garbage after the code
+        dd = z3.BitVec("dj", 64)
+        nn = ite_table({k: code_bits(n_, ln) for k, (n_, ln) in F["enc"].items()}, dd, NBITS)
+        ll = ite_table({k: ln for k, (n_, ln) in F["enc"].items()}, dd, 8)
+        garbage = z3.BitVec("garbage", NBITS)
+        maskd = ite_table({k: ((1 << ln) - 1) << (NBITS - ln) for k, (n_, ln) in F["enc"].items()}, dd, NBITS)
+        link = [z3.ULT(dd, nvar), bits == (nn | (garbage & ~maskd)), L == NBITS]
+        bad2 = []
+        for (c, k, v), st in zip(outs, stores):
+            if k != "ret":
+                continue
+            if v.variant == "Ok":
+                dv = F["disc"]["::".join(v.fields[0].name.split("::")[-2:])]
+                bad2.append(z3.And(c, z3.Not(z3.And(dd == dv, ll == st.get("pos", 0)))))
+            else:
+                bad2.append(c)
+        sol.add("K14.2 %s: every jet's code decodes back to it, consuming exactly the code" % fam, link + [z3.Or(bad2)],
+                vars_for_model=[dd, garbage])
+        # K14.4 names: parse(display(j)) == j
+        sv = z3.Int("s_id")
+        saved_models = dict(mach.models)
+
+        def str_eq(mach_, name, args):
+            a, b = args
+            def ident(x):
+                while isinstance(x, Ref):
+                    x = x.val
+                if isinstance(x, Opaque) and x.tag == "str":
+                    return z3.IntVal(sid(x.data["s"].strip('"')))
+                if isinstance(x, Opaque) and x.tag == "symstr":
+                    return sv
+                raise Unsupported("str eq on %r" % (x,))
+            return [(M.T(), "ret", ident(a) == ident(b))]
+        mach.models = dict(saved_models)
+        mach.models[r"^<str as PartialEq>::eq$"] = str_eq
+        mach.models[r"^<str as ToOwned>::to_owned$"] = lambda m_, n_, a_: [(M.T(), "ret", Opaque("string"))]
+        outs_p = mach.exec_fn(F["from_str"], [Ref(Opaque("symstr"))])
+        mach.models = saved_models
+        dd2 = z3.BitVec("dn", 64)
+        name_of = z3.IntVal(0)
+        for k, nm in F["display"].items():
+            name_of = z3.If(dd2 == k, z3.IntVal(sid(nm)), name_of)
+        bad4 = []
+        for (c, k, v) in outs_p:
+            if k == "panic":
+                bad4.append(c)
+            elif isinstance(v, Adt) and v.variant == "Ok":
+                bad4.append(z3.And(c, dd2 != F["disc"]["::".join(v.fields[0].name.split("::")[-2:])]))
+            else:
+                bad4.append(c)
+        sol.add("K14.4 %s: every jet's name parses back to it" % fam, [z3.ULT(dd2, nvar), sv == name_of, z3.Or(bad4)],
+                vars_for_model=[dd2])
+        # distinct display names
+        names = list(F["display"].values())
+        if len(set(names)) != len(names):
+            raise Unsupported("%s: duplicate display names" % fam)
+        F["outs"], F["stores"] = outs, stores
+
+    # K14.3 Core vs Elements namesakes behind the prefix bit 0
+    C, E = fams["Core"], fams["Elements"]
+    dc = z3.BitVec("dc", 64)
+    ncore = len(C["variant"])
+    code_c = ite_table({k: code_bits(n_, ln) for k, (n_, ln) in C["enc"].items()}, dc, NBITS)
+    len_c = ite_table({k: ln for k, (n_, ln) in C["enc"].items()}, dc, 8)
+    link = [z3.ULT(dc, ncore), bits == z3.LShR(code_c, 1), L == NBITS]
+    name_c = ite_table({k: sid("name:" + v) for k, v in C["display"].items()}, dc, 32)
+    src_c = ite_table({k: sid("ty:" + v) for k, v in C["src"].items()}, dc, 32)
+    tgt_c = ite_table({k: sid("ty:" + v) for k, v in C["tgt"].items()}, dc, 32)
+    bad3 = []
+    for (c, k, v), st in zip(E["outs"], E["stores"]):
+        if k != "ret":
+            continue
+        if v.variant == "Ok":
+            de = E["disc"]["::".join(v.fields[0].name.split("::")[-2:])]
+            ok = z3.And(len_c + 1 == st.get("pos", 0),
+                        name_c == sid("name:" + E["display"][de]),
+                        src_c == sid("ty:" + E["src"][de]), tgt_c == sid("ty:" + E["tgt"][de]))
+            bad3.append(z3.And(c, z3.Not(ok)))
+        else:
+            bad3.append(c)
+    sol.add("K14.3 each Core jet, behind the family prefix bit, is an Elements jet with the same name and types",
+            link + [z3.Or(bad3)], vars_for_model=[dc])
+    problems = []
+    for q in sol.run_all():
+        if q["verdict"] != "holds":
+            problems.append((q["name"], q["verdict"], q.get("model")))
+    return mach, sol, problems, fams
+
+
+def run_c14_full(prop, mir, log, tier):
+    mach, sol, problems, fams = run_c14(mir, log, tier)
+    # translator validation: the tables extracted from MIR against the native build
+    nat = native(["jets"])
+    validated, mism = 0, 0
+    samples = []
+    if "error" in nat:
+        log("  translator validation could not run: %s" % nat["error"][:300])
+        mism = 1
+    else:
+        for fam, F in fams.items():
+            rows = nat[fam]
+            if len(rows) != len(F["variant"]):
+                mism += 1
+                log("  TABLE SIZE MISMATCH %s: MIR %d native %d" % (fam, len(F["variant"]), len(rows)))
+            byname = {r["name"]: r for r in rows}
+            for k, nm in F["display"].items():
+                validated += 1
+                r = byname.get(nm)
+                n_, ln = F["enc"][k]
+                ok = r is not None and r["code"] == format(n_, "0%db" % ln) and r["decodes_back"]
+                if not ok:
+                    mism += 1
+                    if mism < 6:
+                        log("  TRANSLATOR MISMATCH %s %s: MIR code=%s native=%s" % (fam, nm, format(n_, "0%db" % ln), r))
+                if len(samples) < 5 and k % 97 == 0:
+                    samples.append({"family": fam, "jet": nm, "code": format(n_, "0%db" % ln), "native": r})
+        log("  translator validation: %d jets (codes read from MIR vs native encode/decode), %d mismatches" % (validated, mism))
+    exit_code = 2 if mism else 0
+    for (nm, verdict, model) in problems:
+        if verdict == "inconclusive" or model is None:
+            log("INCONCLUSIVE query %s" % nm)
+            if exit_code == 0:
+                exit_code = 2
+            continue
+        rp = replay_c14(nm, model, fams, log)
+        if rp is True:
+            path = os.path.join(VERIF, "replays", "C14", re.sub(r"\W+", "_", nm)[:60] + ".json")
+            os.makedirs(os.path.dirname(path), exist_ok=True)
+            json.dump({"query": nm, "model": model, "replay_cmd": "vcheck.py C14 --replay " + path}, open(path, "w"), indent=1)
+            print("VIOLATION property=C14 replay=%s" % path)
+            print("  %s model=%s" % (nm, model))
+            exit_code = 1
+        else:
+            log("NON-REPRODUCING counterexample for %s: %s (%s)" % (nm, model, rp))
+            if exit_code == 0:
+                exit_code = 2
+    holds = [q for q in sol.queries if q.get("verdict") == "holds"]
+    cov = {
+        "evaluations": len(sol.queries) + validated,
+        "distinct_nontrivial": len(holds),
+        "rule": "one evaluation = one SMT query over all 24-bit strings / all stream lengths / all discriminants of a family (z3 and cvc5 must agree), or one translator-validation jet",
+        "samples": [{"query": q["name"], "z3": q["z3"], "cvc5": q.get("cvc5"), "verdict": q["verdict"], "model": q.get("model")} for q in sol.queries],
+        "obligations": len(sol.queries), "discharged": len(holds),
+        "checker_cmd": "cargo +nightly rustc -- -Zunpretty=mir | vlib/mir2smt.py | z3 5.1.0 + cvc5 1.0.3",
+        "functions_encoded": [f for f in mach.encoded if "init::" in f],
+        "calls_modelled": sorted(set(mach.modelled)),
+        "bounds": "every bit string of up to 24 bits (longest jet code is 22 bits), every stream length 0..24, every discriminant of Core (368), Elements (471), Bitcoin (428)",
+        "outside_claim": "equality of CMRs/types/costs with the C tables and extern declarations vs C prototypes (no input to quantify over; C not encodable); BitIter/BitWriter themselves are modelled here (bit stream with a cursor) and checked on the real code under C13",
+        "families": {k: {"variants": len(v["variant"])} for k, v in fams.items()},
+        "translator_validation": {"jets": validated, "mismatches": mism, "samples": samples},
+        "traces_validated_against_impl": validated,
+        "solver_time_s": round(sol.solver_s, 2), "exhaustive": False,
+    }
+    return exit_code, cov
+
+
+def replay_c14(nm, model, fams, log):
+    """native reproduction: run the real decoder/encoder on the model's input"""
+    m = re.match(r"^K14\.\w+ (Core|Elements|Bitcoin)", nm)
+    fam = m.group(1) if m else "Core"
+    if "bits" in model:
+        r = native(["jet_decode", fam, format(model["bits"], "024b")[:max(0, min(24, model.get("len", 24)))]])
+        log("  native decode of %s: %s" % (format(model["bits"], "024b"), r))
+        if "error" in r:
+            return True if "panicked" in r["error"] else r["error"]
+        if r["result"] == "ok":
+            return True if not (r["reencoded"] == r["consumed_bits"]) else "native decoder/encoder agree"
+        if r["result"] == "EndOfStream":
+            return True if r["consumed"] < len(r.get("input", "")) else "native behaviour matches"
+        return "native behaviour matches"
+    key = [k for k in ("dj", "dn", "dc") if k in model]
+    if key:
+        F = fams[fam if key[0] != "dc" else "Core"]
+        jet = F["display"].get(model[key[0]])
+        r = native(["jet_check", fam if key[0] != "dc" else "Core", jet])
+        log("  native check of %s: %s" % (jet, r))
+        if "error" in r:
+            return True
+        return True if not (r["decodes_back"] and r["parses_back"] and r.get("namesake_ok", True)) else "native tables agree"
+    return "no replay for this query"
+
+
 def replay_file(path):
     d = json.load(open(path))
 
     def log(x):
         print(x)
+    if d["query"].startswith("K14"):
+        print("replay of C14 models needs the tables: run `vcheck.py C14` (it replays every counterexample natively)")
+        return 2
     r = replay_c07(d["query"], d["model"], log) if d["query"].startswith("L") else replay_c19(d["query"], d["model"], log)
     print("reproduced: %s" % (r is True))
     return 1 if r is True else 0
